@@ -1,6 +1,7 @@
 package rules
 
 import (
+	"go/token"
 	"go/ast"
 	"go/types"
 	"sort"
@@ -151,5 +152,87 @@ func c24(c *core.Ctx) {
 			}
 		}
 		rTab.Check(ok, f.Key+":unknown-type", f.Decl.Pos(), "unknown type returns an error", "unknown compressor type does not return an error")
+	}
+
+	rI := c.Rule("C24.integrity", "no compressor or decompressor is configured to drop the integrity check of its frame format: no library struct field or option whose name mentions a checksum / CRC is set to the value that disables it (NoChecksum: true, IgnoreChecksum(true), WithEncoderCRC(false), ...)", 1)
+	{
+		isLib := func(o types.Object) bool {
+			if o == nil || o.Pkg() == nil {
+				return false
+			}
+			pp := o.Pkg().Path()
+			return strings.Contains(pp, "lz4") || strings.Contains(pp, "zstd") || strings.Contains(pp, "snappy") || strings.Contains(pp, "gzip") || strings.Contains(pp, "flate") || strings.Contains(pp, "zlib") || strings.Contains(pp, "compress")
+		}
+		mentions := func(name string) bool {
+			l := strings.ToLower(name)
+			return strings.Contains(l, "checksum") || strings.Contains(l, "crc") || strings.Contains(l, "hash") || strings.Contains(l, "verify")
+		}
+		negative := func(name string) bool {
+			for _, pfx := range []string{"No", "Ignore", "Skip", "Disable", "Without"} {
+				if strings.HasPrefix(name, pfx) {
+					return true
+				}
+			}
+			return false
+		}
+		n := 0
+		for _, f := range p.FuncsIn(pkgCompressor) {
+			if f.Decl.Body == nil {
+				continue
+			}
+			info := f.Info()
+			disabling := func(name string, val ast.Expr) (bool, bool) {
+				v, isB := core.BoolLit(info, val)
+				if !isB {
+					return false, false // not a constant: cannot decide
+				}
+				return v == negative(name), true
+			}
+			ast.Inspect(f.Decl.Body, func(x ast.Node) bool {
+				switch v := x.(type) {
+				case *ast.KeyValueExpr:
+					if id, ok := v.Key.(*ast.Ident); ok {
+						if fld, isF := info.Uses[id].(*types.Var); isF && fld.IsField() && isLib(fld) && mentions(fld.Name()) {
+							n++
+							bad, decided := disabling(fld.Name(), v.Value)
+							if !decided {
+								rI.Undecided(f.Key+":"+fld.Name(), v.Pos(), "integrity option set from a non-constant value")
+							} else {
+								rI.Check(!bad, f.Key+":"+fld.Name(), v.Pos(), "integrity check kept", "the "+fld.Pkg().Name()+" frame is written or read without its checksum ("+fld.Name()+" disables it): a damaged payload decompresses with a nil error to different data")
+							}
+						}
+					}
+				case *ast.AssignStmt:
+					for i, lhs := range v.Lhs {
+						if sel, ok := lhs.(*ast.SelectorExpr); ok && i < len(v.Rhs) {
+							if fld := core.FieldOf(info, sel); fld != nil && isLib(fld) && mentions(fld.Name()) {
+								n++
+								bad, decided := disabling(fld.Name(), v.Rhs[i])
+								if !decided {
+									rI.Undecided(f.Key+":"+fld.Name(), v.Pos(), "integrity option set from a non-constant value")
+								} else {
+									rI.Check(!bad, f.Key+":"+fld.Name(), v.Pos(), "integrity check kept", "the "+fld.Pkg().Name()+" frame is written or read without its checksum ("+fld.Name()+" disables it)")
+								}
+							}
+						}
+					}
+				case *ast.CallExpr:
+					if fo := core.Callee(info, v); fo != nil && isLib(fo) && mentions(fo.Name()) && len(v.Args) == 1 {
+						n++
+						bad, decided := disabling(fo.Name(), v.Args[0])
+						if !decided {
+							rI.Undecided(f.Key+":"+fo.Name(), v.Pos(), "integrity option set from a non-constant value")
+						} else {
+							rI.Check(!bad, f.Key+":"+fo.Name(), v.Pos(), "integrity check kept", "the "+fo.Pkg().Name()+" option "+fo.Name()+" disables the frame checksum: a damaged payload decompresses with a nil error to different data")
+						}
+					}
+				}
+				return true
+			})
+		}
+		// positive evidence even when no option is touched at all
+		rI.Ok(pkgCompressor+":integrity-options-scanned", token.NoPos, "all library struct fields, assignments and option calls of the package scanned")
+		_ = n
+
 	}
 }
